@@ -8,6 +8,7 @@ package c04
 import (
 	"encoding/json"
 	"fmt"
+	"slices"
 	"sort"
 	"strings"
 
@@ -34,6 +35,32 @@ func init() {
 type kase struct {
 	Expr string      `json:"expr"`
 	Tree *model.Expr `json:"tree"`
+	// Mirror: also evaluate the expression with the disjuncts of every
+	// disjunction written in the opposite order; the resolved default must
+	// be the same (no reference model involved)
+	Mirror bool `json:"mirror,omitempty"`
+}
+
+var mirrorOn bool
+
+// mirror returns e with the operands of every disjunction reversed.
+func mirror(e *model.Expr) *model.Expr {
+	if e == nil || len(e.Args) == 0 {
+		return e
+	}
+	m := *e
+	m.Args = make([]*model.Expr, len(e.Args))
+	for i, a := range e.Args {
+		m.Args[i] = mirror(a)
+	}
+	if e.Op == "|" {
+		slices.Reverse(m.Args)
+		if len(e.Marks) == len(e.Args) {
+			m.Marks = slices.Clone(e.Marks)
+			slices.Reverse(m.Marks)
+		}
+	}
+	return &m
 }
 
 var leaves = model.DisjLeaves()
@@ -118,7 +145,7 @@ func run(r *core.Run) {
 		if n%500 == 0 {
 			ctx = cuecontext.New()
 		}
-		c := kase{Expr: e.String(), Tree: e}
+		c := kase{Expr: e.String(), Tree: e, Mirror: mirrorOn}
 		r.Guard(c, func() { check(r, ctx, c) })
 		return true
 	}
@@ -186,6 +213,44 @@ func run(r *core.Run) {
 				}
 			}
 		}
+	}
+	r.Section("S10: ((disjunction w3 over 1,2,3 in either order, all marks) & (the same)) & (disjunction w2 of two distinct of them, both orders, all marks)")
+	var t3 []*model.Expr
+	for _, src := range []string{"1", "2", "3"} {
+		for _, l := range leaves {
+			if l.Src == src {
+				t3 = append(t3, leafE(l))
+			}
+		}
+	}
+	if len(t3) == 3 {
+		mirrorOn = true
+		var w3, w2 []*model.Expr
+		for _, args := range [][]*model.Expr{{t3[0], t3[1], t3[2]}, {t3[2], t3[1], t3[0]}} {
+			for pat := 0; pat < 8; pat++ {
+				w3 = append(w3, &model.Expr{Op: "|", Args: args, Marks: []bool{pat&1 != 0, pat&2 != 0, pat&4 != 0}})
+			}
+		}
+		for i := range t3 {
+			for j := range t3 {
+				if i == j {
+					continue
+				}
+				for pat := 0; pat < 4; pat++ {
+					w2 = append(w2, &model.Expr{Op: "|", Args: []*model.Expr{t3[i], t3[j]}, Marks: []bool{pat&1 != 0, pat&2 != 0}})
+				}
+			}
+		}
+		for _, a := range w3 {
+			for _, b := range w3 {
+				for _, c := range w2 {
+					if !do(and(and(a, b), c)) {
+						break
+					}
+				}
+			}
+		}
+		mirrorOn = false
 	}
 	if r.Thorough() {
 		r.Section("S6: (disjunction w2) & (disjunction w2), all leaves")
@@ -436,6 +501,22 @@ func check(r *core.Run, ctx *cue.Context, c kase) {
 	ikey, iconc := "", false
 	if implErr == "" {
 		ikey, iconc = implKey(d)
+	}
+	if c.Mirror {
+		msrc := mirror(c.Tree).String()
+		me := ctx.CompileString(msrc)
+		r.Trans(1)
+		md, _ := me.Default()
+		mkey, mconc := "", false
+		if merr := canon.ErrClass(me); merr == "" {
+			mkey, mconc = implKey(md)
+		} else if implErr == "" {
+			mkey = "error"
+		}
+		if mconc != iconc || (iconc && mkey != ikey) {
+			r.Violation(fmt.Sprintf("default depends on the order of disjuncts: %s resolves to %q(concrete=%v), %s to %q(concrete=%v)", c.Expr, ikey, iconc, msrc, mkey, mconc), c, fmt.Sprintf("Default() = %v / %v", d, md))
+			return
+		}
 	}
 	switch {
 	case len(vKeys) == 0:
